@@ -591,6 +591,7 @@ def r072(F, rep):
                       '(arms whose result can leave the range of a 32-bit unsigned type; every integer target type of ND_CAST)', floor=14)
     # (a) ND_CAST over the catalogue
     kind = 'ND_CAST'
+    F.cast_reduces = {}
     try:
         ps = [p for p in F.int_paths(kind)]
     except Unsupported as e:
@@ -633,6 +634,7 @@ def r072(F, rep):
                 rep.undecided('R07.2', '%s:eval2:ND_CAST/%s' % (U, cls), und)
             else:
                 rep.ob('R07.2', '%s:eval2:ND_CAST/%s' % (U, cls), good, msg, where='%s:%d' % (U, line_of_kind(u, 'eval2', F.E[kind])))
+                F.cast_reduces[cls] = good
     # (b) arithmetic arms under an unsigned 32-bit node type
     F.reduced = True
     for kind in NEED_REDUCTION:
@@ -712,6 +714,40 @@ def _mnemonics(p):
     return out
 
 
+def _operands_cast_by_typing(P, kind, tname, operands):
+    """True when add_type (type.c, executed on a node of `kind` whose operands are leaves of type tname) leaves each of `operands`
+    wrapped in an ND_CAST node of the same type class: the folder then receives the operand through its ND_CAST arm.  None: not decided"""
+    from ..lib_types import Types, typed_leaf, cast_of
+    from ..interp import Obj
+    try:
+        T = Types(P)
+        it = T.interp(opaque=['error_tok'])
+        box = {}
+
+        def mk(ctx):
+            it.ctx = ctx
+            n = Obj('Node', lazy=False, label='node')
+            n.fields['kind'] = T.E[kind]
+            n.fields['tok'] = Obj('Token', lazy=True, label='tok')
+            for k in ('lhs', 'rhs'):
+                n.fields[k] = typed_leaf(it, T, tname, k)
+            box['n'] = n
+            box['orig'] = {k: n.fields[k] for k in ('lhs', 'rhs')}
+            return [n]
+        outs = [(ctx, out) for ctx, out in it.explore('add_type', mk) if out[0] == 'ret']
+        if len(outs) != 1:
+            return None
+        for c in operands:
+            is_cast, cls = cast_of(it, T, box['n'].fields.get(c), box['orig'][c])
+            if not (is_cast and cls == tname):
+                return False
+        return True
+    except AnalysisBroken:
+        return None
+    except Exception:
+        return None
+
+
 def r071(F, P, rep):
     u = F.u
     rep.rule('R07.1', 'for / % >> < <= the folder chooses the unsigned host operation for exactly the operand types for which gen_expr '
@@ -731,6 +767,7 @@ def r071(F, P, rep):
         und = None
         checked = 0
         combos = []
+        via_cast = []
         for t in tnames:
             if cmp_kind:
                 combos.append((t, F.facts(node='int', lhs=t, rhs=t)))
@@ -774,6 +811,12 @@ def r071(F, P, rep):
                 continue
             if rec['size'] < 8 and fg == 'unsigned' and ff == 'signed' and bits == 64 and reduced:
                 continue      # operands are zero-extended (R07.2 holds everywhere): signed 64-bit == unsigned narrow
+            if rec['size'] < 8 and fg == 'unsigned' and ff == 'signed' and bits == 64 and getattr(F, 'cast_reduces', {}).get(cls) \
+                    and _operands_cast_by_typing(P, kind, t, ('lhs',) if kind == 'ND_SHR' else ('lhs', 'rhs')):
+                # the typing relation hands the operand over as an ND_CAST to the node's type, and the ND_CAST arm reduces that class (R07.2):
+                # the operand arrives zero-extended although other arms do not reduce
+                via_cast.append(t)
+                continue
             why = ''
             if rec['size'] < 8 and fg == 'unsigned' and ff == 'signed':
                 why = (' (equal only if every unsigned operand arrives zero-extended, which R07.2 shows is not the case: '
@@ -790,6 +833,9 @@ def r071(F, P, rep):
             rep.undecided('R07.1', '%s:eval2:%s/predicate' % (U, kind), und, where=w)
         elif not bad:
             rep.ob('R07.1', '%s:eval2:%s/predicate' % (U, kind), checked > 0, 'no operand type could be compared', where=w)
+        if via_cast:
+            rep.notes.append('R07.1: %s on %s operands is a signed 64-bit host operation where gen_expr emits the unsigned instruction; equal because add_type wraps the operand '
+                             'in a cast to the node type and the ND_CAST arm zero-extends it (R07.2 ND_CAST)' % (kind, ','.join(sorted(set(via_cast)))))
 
 
 # ------------------------------------------------------------------ R07.4 ---
